@@ -14,15 +14,18 @@
     * `c05s_sourceposNode_every` … and by the sourcepos pass (attributes only)
     * `afterBlocks_nodeOrd`      the composition
 
-  The one extra hypothesis is `InlNoRange root`: a node of the block tree whose VALUE is the
-  `InlineRoot` placeholder carries no range.  `spliceList` replaces a child by its KIND alone, whereas
-  `RangedB` / `SpanB` speak about the placeholder claim `P` only for a node WITHOUT range (for a node
-  with a range `SpanB` is just that range), so `RangedB` does not say anything about the text of a
-  ranged node whose kind is `inlineRoot`.  Neither `RangedB` nor `WFB` (Props/Pipeline.lean: `LocB`
-  never mentions a range; the children of a list item are only `≠ listItem`) excludes such a node;
-  every producer of the block model builds placeholders as `⟨.inlineRoot c m, none, []⟩`, so the
-  predicate holds of every tree `parseBlocks` returns, but that is a separate induction over the
-  block tokenizer (see the OPEN block at the end).
+    * `parseBlocks_inlNoRange`   (namespace `MdIt.Block`) every tree of the block pass is `InlNoRange`
+    * `parseDoc_nodeOrd`         both together for `parseDoc`, given `InlSpec _ (PInl _)`
+
+  The one extra hypothesis of `afterBlocks_nodeOrd` is `InlNoRange root`: a node of the block tree
+  whose VALUE is the `InlineRoot` placeholder carries no range.  `spliceList` replaces a child by its
+  KIND alone, whereas `RangedB` / `SpanB` speak about the placeholder claim `P` only for a node
+  WITHOUT range (for a node with a range `SpanB` is just that range), so `RangedB` says nothing about
+  the text of a ranged node whose kind is `inlineRoot` — and the hypothesis is needed (witness
+  `c05s_badRoot` below).  Neither `RangedB` nor `WFB` (Props/Pipeline.lean: `LocB` never mentions a
+  range; the children of a list item are only `≠ listItem`) excludes such a node, so it is proved
+  here of `parseBlocks` by its own induction over the block tokenizer (second half of the file; the
+  scheme of `parseBlocks_wf`): every producer builds placeholders as `⟨.inlineRoot c m, none, []⟩`.
 -/
 import MdIt.Lemmas.C05InlineDefs
 
@@ -582,5 +585,376 @@ example : Block.RangedB (PInl ((exCfg false 100).inlineCfg [])) ['x'] c05s_badRo
 
 example : (afterBlocks (exCfg false 100) ['x'] c05s_badRoot []).toOption.map (c05s_flat 0) =
     some [(0, 0, 1), (1, 5, 7)] := by decide +kernel
+
+end MdIt.Pipeline
+
+/-! # `InlNoRange` holds of every tree of the block pass
+
+  The same induction over the block tokenizer as `parseBlocks_wf` (Props/Pipeline.lean), with the
+  invariant "every child pushed so far is `InlNoRange`": the three producers of placeholders build
+  `⟨.inlineRoot c m, none, []⟩`, every other node has another kind, `mark_tight_paragraphs` only
+  lifts the children of a paragraph into its item. -/
+
+namespace MdIt.Block
+open MdIt.Pipeline (InlNoRange)
+
+def c05s_AllNR (cs : List BNode) : Prop := ∀ c ∈ cs, InlNoRange c
+
+def c05s_KeepsNR (s s' : BState) : Prop := c05s_AllNR s.children → c05s_AllNR s'.children
+
+theorem c05s_AllNR.nil : c05s_AllNR [] := fun _ h => by simp at h
+
+theorem c05s_AllNR.push {cs : List BNode} {n : BNode} (h : c05s_AllNR cs) (hn : InlNoRange n) :
+    c05s_AllNR (cs ++ [n]) := by
+  intro c hc
+  rcases List.mem_append.mp hc with h1 | h1
+  · exact h c h1
+  · simp at h1; subst h1; exact hn
+
+theorem c05s_nr_inl (t : List Char) (m : List (Nat × Nat)) : InlNoRange ⟨.inlineRoot t m, none, []⟩ :=
+  .mk _ (fun _ _ _ => rfl) (by simp)
+
+theorem c05s_nr_node {k : Kind} {r : Option (Nat × Nat)} {cs : List BNode}
+    (hk : ∀ c m, k ≠ .inlineRoot c m) (h : c05s_AllNR cs) : InlNoRange ⟨k, r, cs⟩ :=
+  .mk _ (fun c m e => absurd e (hk c m)) h
+
+theorem c05s_nr_leaf (k : Kind) (r : Option (Nat × Nat)) (hk : ∀ c m, k ≠ .inlineRoot c m) :
+    InlNoRange ⟨k, r, []⟩ := c05s_nr_node hk c05s_AllNR.nil
+
+theorem c05s_nr_text (k : Kind) (r : Option (Nat × Nat)) (t : List Char) (m : List (Nat × Nat))
+    (hk : ∀ c m, k ≠ .inlineRoot c m) : InlNoRange ⟨k, r, [⟨.inlineRoot t m, none, []⟩]⟩ :=
+  c05s_nr_node hk (fun c hc => by simp at hc; subst hc; exact c05s_nr_inl t m)
+
+theorem c05s_hr_nr {s s' : BState} {b : Bool} (h : hrRule s false = .ok (b, s')) : c05s_KeepsNR s s' := by
+  unfold hrRule at h
+  crack h
+  all_goals (try subst_vars)
+  all_goals (intro hg)
+  all_goals (first | exact hg | exact hg.push (c05s_nr_leaf _ _ (by simp)))
+
+theorem c05s_code_nr {s s' : BState} {b : Bool} (h : codeRule s false = .ok (b, s')) : c05s_KeepsNR s s' := by
+  unfold codeRule at h
+  crack h
+  all_goals (try subst_vars)
+  all_goals (intro hg)
+  all_goals (first | exact hg | exact hg.push (c05s_nr_leaf _ _ (by simp)))
+
+theorem c05s_fence_nr {s s' : BState} {b : Bool} (h : fenceRule s false = .ok (b, s')) : c05s_KeepsNR s s' := by
+  unfold fenceRule at h
+  crack h
+  all_goals (try subst_vars)
+  all_goals (intro hg)
+  all_goals (first | exact hg | exact hg.push (c05s_nr_leaf _ _ (by simp)))
+
+theorem c05s_heading_nr {s s' : BState} {b : Bool} (h : headingRule s false = .ok (b, s')) :
+    c05s_KeepsNR s s' := by
+  unfold headingRule at h
+  crack h
+  all_goals (try subst_vars)
+  all_goals (intro hg)
+  all_goals (first | exact hg | exact hg.push (c05s_nr_text _ _ _ _ (by simp)))
+
+theorem c05s_paragraph_nr {test : Test} (ht : TestPure test) {fuel : Nat} {s s' : BState} {b : Bool}
+    (h : paragraphRule test fuel s false = .ok (b, s')) : c05s_KeepsNR s s' := by
+  unfold paragraphRule at h
+  crack h
+  have h1 := (lazyScan_spec ht false _ _ _ _ ‹lazyScan _ _ _ _ _ = _›).1
+  intro hg
+  simp only [BState.push, h1]
+  exact hg.push (c05s_nr_text _ _ _ _ (by simp))
+
+theorem c05s_lheading_nr {test : Test} (ht : TestPure test) {fuel : Nat} {s s' : BState} {b : Bool}
+    (h : lheadingRule test fuel s false = .ok (b, s')) : c05s_KeepsNR s s' := by
+  unfold lheadingRule at h
+  crack h
+  all_goals (try (have h1 := (lazyScan_spec ht true _ _ _ _ ‹lazyScan _ _ _ _ _ = _›).1))
+  all_goals (try subst_vars)
+  all_goals (intro hg)
+  all_goals (first | exact hg | exact hg.push (c05s_nr_text _ _ _ _ (by simp)))
+
+theorem c05s_reference_nr {cfg : Cfg} {test : Test} (ht : TestPure test) {fuel : Nat}
+    {s s' : BState} {b : Bool} (h : referenceRule cfg test fuel s false = .ok (b, s')) :
+    c05s_KeepsNR s s' := by
+  unfold referenceRule at h
+  crack h
+  all_goals (try (have h1 := (lazyScan_spec ht false _ _ _ _ ‹lazyScan _ _ _ _ _ = _›).1))
+  all_goals (try subst_vars)
+  all_goals (intro hg)
+  all_goals (first | exact hg | (rw [h1]; exact hg) | (simp only [h1]; exact hg))
+
+/-- the nested tokenizer keeps the children of its current node `InlNoRange` -/
+def c05s_TokNR (tok : Tok) : Prop := ∀ s s', tok s = .ok s' → c05s_KeepsNR s s'
+
+theorem c05s_blockquote_nr {tok : Tok} {test : Test} (hk : TokSpec tok) (hsh : c05s_TokNR tok)
+    (ht : TestPure test) {fuel : Nat} {s s' : BState} {b : Bool}
+    (h : blockquoteRule tok test fuel s false = .ok (b, s')) : c05s_KeepsNR s s' := by
+  unfold blockquoteRule at h
+  crack h
+  all_goals (try subst_vars)
+  · exact fun hg => hg
+  · exact fun hg => hg
+  · have hscan := ‹bqScan _ _ _ _ _ _ = _›
+    have htok := ‹tok _ = _›
+    rename_i scan _ s2 _ _ _ _ _ _ _ _ _
+    obtain ⟨n, old', S'⟩ := scan
+    obtain ⟨hch, _⟩ := bqScan_children ht hscan
+    have hfr := hk.frame _ _ htok
+    have hg2 := hsh _ _ htok c05s_AllNR.nil
+    intro hg
+    simp only at hch hfr hg2 ⊢
+    rw [hch]
+    have hkind : s2.nodeKind = .blockquote := hfr.nodeKind
+    refine hg.push (c05s_nr_node ?_ hg2)
+    rw [hkind]; simp
+
+theorem c05s_markTight_nr : ∀ (cs : List BNode), c05s_AllNR cs → c05s_AllNR (markTight cs)
+  | [], _ => by simp [markTight]; exact c05s_AllNR.nil
+  | n :: r, h => by
+    have hr := c05s_markTight_nr r (fun c hc => h c (List.mem_cons_of_mem _ hc))
+    have hn := h n (by simp)
+    simp only [markTight]
+    split
+    · intro c hc
+      rcases List.mem_append.mp hc with h1 | h1
+      · exact hn.child c h1
+      · exact hr c h1
+    · intro c hc
+      simp at hc
+      rcases hc with rfl | h1
+      · exact hn
+      · exact hr c h1
+
+theorem c05s_tightenItems_nr : ∀ (cs cs' : List BNode), tightenItems cs = .ok cs' →
+    c05s_AllNR cs → c05s_AllNR cs'
+  | [], cs', h, _ => by simp [tightenItems] at h; subst h; exact c05s_AllNR.nil
+  | c :: r, cs', h, hi => by
+    simp only [tightenItems] at h
+    split at h
+    · cases h
+    · split at h
+      · cases h
+      · rename_i hk r' hr
+        cases h
+        have ih := c05s_tightenItems_nr r r' hr (fun x hx => hi x (List.mem_cons_of_mem _ hx))
+        have hc := hi c (by simp)
+        intro x hx
+        simp at hx
+        rcases hx with rfl | hx
+        · exact .mk _ hc.at (c05s_markTight_nr _ hc.child)
+        · exact ih x hx
+
+theorem c05s_listItemBody_nr {tok : Tok} (hsh : c05s_TokNR tok) {S2 S3 : BState} {m : Nat} {re : Bool}
+    (h : listItemBody tok S2 m re = .ok S3) : c05s_KeepsNR S2 S3 := by
+  unfold listItemBody at h
+  crack h
+  · exact fun hg => hg
+  · have htok := ‹tok _ = _›
+    subst_vars
+    have key := hsh _ _ htok
+    intro hg
+    exact key hg
+
+theorem c05s_listItem_nr {tok : Tok} (hk : TokSpec tok) (hsh : c05s_TokNR tok) {S S' : BState}
+    {m pos : Nat} {pee tight pee' tight' : Bool}
+    (h : listItem tok S m pos pee tight = .ok (S', tight', pee'))
+    (_hline : S.line = m) (_hlt : m < S.lineMax) :
+    c05s_AllNR S.children → c05s_AllNR S'.children := by
+  unfold listItem at h
+  crack h
+  rename_i o ho rw hrw S2 hS2 S3 hbody _ li hli S5 hS5 e _ r _ hS' _ _
+  subst hS'
+  obtain ⟨hm, hS2eq⟩ := setOff_ok hS2
+  obtain ⟨hm5, rfl⟩ := setOff_ok hS5
+  have hg3 := c05s_listItemBody_nr hsh hbody (by rw [hS2eq]; exact c05s_AllNR.nil)
+  have hkind : S3.nodeKind = .listItem := by
+    unfold listItemBody at hbody
+    crack hbody
+    · rw [hS2eq]
+    · have := (hk.frame _ _ ‹tok _ = _›).nodeKind
+      simp only at this ⊢
+      rw [this, hS2eq]
+  intro hi c hc
+  simp only at hc
+  rcases List.mem_append.mp hc with h1 | h1
+  · exact hi c h1
+  · simp at h1
+    subst h1
+    refine c05s_nr_node ?_ hg3
+    rw [hkind]; simp
+
+theorem c05s_listLoop_nr {tok : Tok} {test : Test} (hk : TokSpec tok) (hsh : c05s_TokNR tok)
+    (ht : TestPure test) {ordered : Bool} {mc : Char} :
+    ∀ (fuel : Nat) (S : BState) (m pos : Nat) (pee tight : Bool) (n : Nat) (tight' : Bool) (S' : BState),
+      listLoop tok test ordered mc fuel S m pos pee tight = .ok (n, tight', S') →
+      S.line = m → m < S.lineMax → c05s_AllNR S.children → c05s_AllNR S'.children := by
+  intro fuel
+  induction fuel with
+  | zero => intro S m pos pee tight n tight' S' h; simp [listLoop] at h
+  | succ f ih =>
+    intro S m pos pee tight n tight' S' h hline hlt hi
+    simp only [listLoop] at h
+    crack h
+    all_goals (try subst_vars)
+    · rename_i wi wc hc _ hnone _ hitem
+      obtain ⟨S1, t1, p1⟩ := wi
+      obtain ⟨c, S2⟩ := wc
+      obtain ⟨rfl, _⟩ := listContinue_spec ht hc
+      exact c05s_listItem_nr hk hsh hitem rfl hlt hi
+    · rename_i wi wc hc _ p hsome _ hitem
+      obtain ⟨S1, t1, p1⟩ := wi
+      obtain ⟨c, S2⟩ := wc
+      obtain ⟨hfr, h1, h2⟩ := listItem_spec hk hitem rfl hlt
+      obtain ⟨rfl, hc2⟩ := listContinue_spec ht hc
+      simp only at hsome h hc2
+      have hlt2 := hc2 (by rw [hsome]; simp)
+      exact ih _ _ _ _ _ _ _ _ h rfl hlt2 (c05s_listItem_nr hk hsh hitem rfl hlt hi)
+
+theorem c05s_list_rule_nr {tok : Tok} {test : Test} (hk : TokSpec tok) (hsh : c05s_TokNR tok)
+    (ht : TestPure test) {fuel : Nat} {s s' : BState} {b : Bool}
+    (h : listRule tok test fuel s false = .ok (b, s')) (hl : s.line < s.lineMax) : c05s_KeepsNR s s' := by
+  unfold listRule at h
+  crack h
+  all_goals (try subst_vars)
+  all_goals (try (exact fun hg => hg))
+  all_goals (
+    have hloop := ‹listLoop _ _ _ _ _ _ _ _ _ _ = _›
+    have htight := ‹(if _ then tightenItems _ else _) = Except.ok _›
+    rename_i wl _ cs _ _ _ _ _ _ _
+    obtain ⟨n, t, S'⟩ := wl
+    have hitems := c05s_listLoop_nr hk hsh ht _ _ _ _ _ _ _ _ _ hloop rfl hl (fun _ hc => by simp at hc)
+    obtain ⟨hfr, _⟩ := listLoop_spec hk ht _ _ _ _ _ _ _ _ _ hloop rfl hl
+    have hcs : c05s_AllNR cs := by
+      simp only at htight
+      split at htight
+      · exact c05s_tightenItems_nr _ _ htight hitems
+      · simp [pure, Except.pure] at htight; subst htight; exact hitems
+    intro hg
+    simp only
+    have hkind := hfr.nodeKind
+    simp only at hkind
+    refine hg.push (c05s_nr_node ?_ hcs)
+    rw [hkind]; simp)
+
+theorem c05s_runRule_nr {cfg : Cfg} {tok : Tok} {test : Test} (hk : TokSpec tok)
+    (hsh : c05s_TokNR tok) (ht : TestPure test) (fuel : Nat) (r : RuleId) {s s' : BState} {b : Bool}
+    (h : runRule cfg tok test fuel r s false = .ok (b, s')) (hl : s.line < s.lineMax) :
+    c05s_KeepsNR s s' := by
+  cases r <;> simp only [runRule] at h
+  · exact c05s_code_nr h
+  · exact c05s_fence_nr h
+  · exact c05s_blockquote_nr hk hsh ht h
+  · exact c05s_hr_nr h
+  · exact c05s_list_rule_nr hk hsh ht h hl
+  · exact c05s_reference_nr ht h
+  · exact c05s_heading_nr h
+  · exact c05s_lheading_nr ht h
+  · exact c05s_paragraph_nr ht h
+
+theorem c05s_runChain_nr {run : RuleId → BState → Bool → Res} (hr : RunSpec run)
+    (hsh : ∀ r s b s', run r s false = .ok (b, s') → s.line < s.lineMax → c05s_KeepsNR s s') :
+    ∀ (chain : List RuleId) (s : BState) (b : Bool) (s' : BState),
+      runChain run chain s false = .ok (b, s') → s.line < s.lineMax → c05s_KeepsNR s s' := by
+  intro chain
+  induction chain with
+  | nil => intro s b s' h _; simp [runChain] at h; rw [← h.2]; exact fun hg => hg
+  | cons r rs ih =>
+    intro s b s' h hl
+    simp only [runChain] at h
+    split at h
+    · cases h
+    · rename_i s1 h1
+      cases h
+      exact hsh _ _ _ _ h1 hl
+    · rename_i s1 h1
+      have := hr.false_same _ _ _ h1
+      subst this
+      exact ih _ _ _ h hl
+
+theorem c05s_afterChain_nr {ok : Bool} {s s' : BState} {prev : Nat}
+    (h : afterChain ok s prev = .ok s') : c05s_KeepsNR s s' := by
+  unfold afterChain at h
+  crack h
+  · exact fun hg => hg
+  · intro hg
+    simp only [BState.push]
+    exact hg.push (c05s_nr_inl _ _)
+
+theorem c05s_tokLoop_nr {cfg : Cfg} {run : RuleId → BState → Bool → Res} (hr : RunSpec run)
+    (hsh : ∀ r s b s', run r s false = .ok (b, s') → s.line < s.lineMax → c05s_KeepsNR s s') :
+    ∀ (fuel : Nat) (he : Bool) (s s' : BState), tokLoop cfg run fuel he s = .ok s' → c05s_KeepsNR s s' := by
+  intro fuel
+  induction fuel with
+  | zero => intro he s s' h; simp [tokLoop] at h
+  | succ f ih =>
+    intro he s s' h
+    simp only [tokLoop] at h
+    crack h
+    all_goals (try subst_vars)
+    all_goals (try (exact fun hg => hg))
+    all_goals (
+      have hchain := ‹runChain _ _ _ _ = _›
+      have hafter := ‹afterChain _ _ _ = _›
+      have h1 := c05s_runChain_nr hr hsh _ _ _ _ hchain (by simp; omega)
+      have h2 := c05s_afterChain_nr hafter
+      have h3 := ih _ _ _ h
+      exact fun hg => h3 (h2 (h1 hg)))
+
+theorem c05s_tokenize_nr (cfg : Cfg) : ∀ fuel : Nat, c05s_TokNR (tokenize cfg fuel) := by
+  intro fuel
+  induction fuel with
+  | zero => intro s s' h; simp [tokenize, engine] at h
+  | succ f ih =>
+    intro s s' h
+    simp only [tokenize, engine] at h
+    have hk := tokenize_tokSpec cfg f
+    have ht := testRules_pure cfg f
+    exact c05s_tokLoop_nr (runRule_spec hk ht _)
+      (fun r s b s' h hl => c05s_runRule_nr hk ih ht _ r h hl) _ _ _ _ h
+
+/-- **`parseBlocks_inlNoRange`.**  In every tree the block parser returns, a node whose value is the
+    `InlineRoot` placeholder has no range (whatever the chain: the no-paragraph fallback included). -/
+theorem parseBlocks_inlNoRange {cfg : Cfg} {src : List Char} {root : BNode} {refs : Refs.RefMap}
+    (h : parseBlocks cfg src = .ok (root, refs)) : InlNoRange root := by
+  unfold parseBlocks at h
+  split at h
+  · cases h
+  · rename_i s hs
+    simp only [Except.ok.injEq, Prod.mk.injEq] at h
+    obtain ⟨rfl, _⟩ := h
+    have hfr := (tokenize_spec cfg _ _ _ hs).frame
+    have hg := c05s_tokenize_nr cfg _ _ _ hs c05s_AllNR.nil
+    have hk : s.nodeKind = .root := hfr.nodeKind
+    refine c05s_nr_node ?_ hg
+    rw [hk]; simp
+
+end MdIt.Block
+
+namespace MdIt.Pipeline
+
+/-- **`parseDoc_nodeOrd`.**  The two results together, for `parseDoc`: if the rules that make
+    placeholders establish the claim `PInl` (`InlSpec`: what the tables of `get_lines` / the ATX rule
+    and the inline range theorems have to provide — independent of this file), then EVERY node of the
+    parsed tree has a range `(a, b)` with `a ≤ b ≤ |src|`, its children's ranges inside `[a, b]`, in
+    source order, without overlap; the root has `(0, |src|)`.  The size bound is that of
+    `doc_block_ranges` (the `i32` fields of the block state). -/
+theorem parseDoc_nodeOrd {cfg : DocCfg} {src : List Char} {t : Node}
+    (hsmall : 4 * Lines.byteLen src + 8 < 2147483648)
+    (hP : ∀ refs, Block.InlSpec cfg.blockCfg.hasPara (PInl (cfg.inlineCfg refs)))
+    (h : parseDoc cfg src = .ok t) : t.range = some (0, Lines.byteLen src) ∧ Every (NodeOrd src) t := by
+  unfold parseDoc at h
+  split at h
+  · cases h
+  · rename_i root refs hb
+    obtain ⟨hr, hg⟩ := Block.parseBlocks_geo (hP refs) hsmall hb
+    exact afterBlocks_nodeOrd hr hg (Block.parseBlocks_inlNoRange hb) h
+
+/-- the hypothesis `InlNoRange` of `afterBlocks_nodeOrd` on a parsed block tree -/
+example : ∃ root refs, Block.parseBlocks (exCfg false 100).blockCfg "- a\n  # *b*\n".toList = .ok (root, refs) ∧
+    InlNoRange root := by
+  have h : (Block.parseBlocks (exCfg false 100).blockCfg "- a\n  # *b*\n".toList).toOption.isSome = true := by
+    decide +kernel
+  cases hp : Block.parseBlocks (exCfg false 100).blockCfg "- a\n  # *b*\n".toList with
+  | error e => rw [hp] at h; cases h
+  | ok x => exact ⟨x.1, x.2, rfl, Block.parseBlocks_inlNoRange hp⟩
 
 end MdIt.Pipeline
